@@ -58,7 +58,7 @@ class Module:
         e = dict(core.GOENV)
         if env:
             e.update(env)
-        p = subprocess.run(["go"] + args, cwd=self.root, env=e, timeout=timeout, stdout=subprocess.PIPE,
+        p = subprocess.run(["go"] + args, cwd=self.root, env=e, timeout=core.patience(timeout), stdout=subprocess.PIPE,
                            stderr=subprocess.STDOUT, text=True)
         return p.returncode, p.stdout
 
@@ -88,7 +88,7 @@ def run_probe(exe, scripts, env=None, timeout=300):
     e = dict(os.environ)
     if env:
         e.update(env)
-    p = subprocess.run([exe], input=inp, text=True, stdout=subprocess.PIPE, stderr=subprocess.PIPE, env=e, timeout=timeout)
+    p = subprocess.run([exe], input=inp, text=True, stdout=subprocess.PIPE, stderr=subprocess.PIPE, env=e, timeout=core.patience(timeout))
     out = []
     for l in p.stdout.splitlines():
         try:
